@@ -13,7 +13,7 @@ import shutil
 import tempfile
 from fractions import Fraction
 
-from ..common import cnat, cz, cbool, clist, copt, cstr, coq_eval, CoqEvalError
+from ..common import cnat, cz, cbool, clist, copt, cstr, safe_coq_eval
 from ..impl import Impl
 
 GEN_FILES = ['PathCheck.v', 'ParseCalls.v']
@@ -24,19 +24,18 @@ STR_PRELUDE = 'From Coq Require Import String Ascii.'
 
 
 PER_CLASS = 1
-MODEL_ERRORS = []       # CoqEvalErrors met during the run; the first one is re-raised once every oracle has run
+MODEL_ERRORS = []       # tags of the model evaluations that failed during the run (each is recorded in ctx.proof_broken)
 
 
 def model_eval(ctx, tag, imports, exprs, prelude='', shard=400):
     """coq_eval that cannot pre-empt the implementation-side search: on failure (the model or a generated file no longer
     compiles) the error is recorded and None is returned; the callers then skip the model diff and still run the
     property oracles on the implementation, so that a concrete failing input is reported when one exists."""
-    try:
-        return coq_eval(tag, imports, exprs, prelude=prelude, shard=shard)
-    except CoqEvalError as e:
-        MODEL_ERRORS.append(e)
+    vals = safe_coq_eval(ctx, tag, imports, exprs, prelude=prelude, shard=shard)      # records the failure in ctx.proof_broken
+    if vals is None:
+        MODEL_ERRORS.append(tag)
         ctx.notes.append('model evaluation failed (%s): correspondence skipped for this part, implementation-side oracles still run' % tag)
-        return None
+    return vals
 
 
 
@@ -425,8 +424,6 @@ def run(ctx, scratch):
         'adjacency lists with at least one neighbour overall (an adjacency list without any edge defines no graph: the code raises, '
         'or returns a 0 x 0 matrix when it reindexes)',
     ]
-    if MODEL_ERRORS:        # every implementation-side oracle has run; now let the runner record the broken model evaluation
-        raise MODEL_ERRORS[0]
 
 
 # ---------------------------------------------------------------------------------------------
